@@ -339,3 +339,12 @@ package panos
 //vc:  invariant[C03] 3 "for _, o := range ab.a.vsys.ServiceGroups" @everyUnneededServiceGroupDeleted forall k int :: { ab.a.vsys.ServiceGroups[k] } k == rangeindex && 0 <= k && !ab.a.vsys.ServiceGroups[k].needed ==> panDeleted == ab.a.vsys.ServiceGroups[k].Name
 //vc:  invariant[C03,C08] 4 "for _, o := range ab.a.vsys.Services" @pathOfThisKind cmd0 == "type=config&xpath=" + (vsysPath + "/service/entry")
 //vc:  invariant[C03] 4 "for _, o := range ab.a.vsys.Services" @everyUnneededServiceDeleted forall k int :: { ab.a.vsys.Services[k] } k == rangeindex && 0 <= k && !ab.a.vsys.Services[k].needed ==> panDeleted == ab.a.vsys.Services[k].Name
+
+// transferNeededObjects: addresses first, then the groups that refer to them,
+// services before service-groups; an object is created (or edited) only if it
+// was marked, each under the path of its kind.
+//vc:func (*rulesPair).transferNeededObjects
+//vc:  assert[C03,C08] at "result = append(result, cmd)"#1 @addressesFirst (o.needed || o.edit) && cmd0 == "type=config&xpath=" + (vsysPath + "/address/entry") && (action == "edit") == o.edit && (action == "edit" || action == "set")
+//vc:  assert[C03,C08] at "result = append(result, cmd)"#2 @groupsBehindAddresses o.needed && cmd0 == "type=config&xpath=" + (vsysPath + "/address-group/entry")
+//vc:  assert[C03,C08] at "result = append(result, cmd)"#3 @servicesBeforeServiceGroups (o.needed || o.edit) && cmd0 == "type=config&xpath=" + (vsysPath + "/service/entry") && (action == "edit") == o.edit && (action == "edit" || action == "set")
+//vc:  assert[C03,C08] at "result = append(result, cmd)"#4 @serviceGroupsLast o.needed && cmd0 == "type=config&xpath=" + (vsysPath + "/service-group/entry")
